@@ -24,11 +24,13 @@ def space(name, body):
 
 
 def commands(name):
+    if name.startswith('tu-'):
+        return ['abidiff-dmg-intact', 'abilint', 'abilint-stdin-tu']
     return ['abidiff-dmg-intact', 'abilint', 'abilint-stdin']
 
 
 def applies(cmd, fi, f):
-    return cmd == 'abidiff-dmg-intact' or (cmd == 'abilint' and fi % 2 == 0) or (cmd == 'abilint-stdin' and fi % 4 == 1)
+    return cmd == 'abidiff-dmg-intact' or (cmd == 'abilint' and fi % 2 == 0) or (cmd in ('abilint-stdin', 'abilint-stdin-tu') and fi % 4 == 1)
 
 
 def command(ctx, it, cmd, dmg):
@@ -36,6 +38,8 @@ def command(ctx, it, cmd, dmg):
         return 'abidiff', ['abidiff', dmg, it['path']], None
     if cmd == 'abilint':
         return 'abilint', ['abilint', '--noout', dmg], None
+    if cmd == 'abilint-stdin-tu':
+        return 'abilint', ['abilint', '--stdin', '--tu'], dmg
     return 'abilint', ['abilint', '--noout', '--stdin'], dmg
 
 
